@@ -721,11 +721,27 @@ def list_edit(draw, spec, mutators=True, noops=True):
         for a, classes in S.META[e["cls"]]["lists"].items():
             cands.append((n, a, classes))
     n, a, classes = draw(st.sampled_from(sorted(cands)))
+    used = S.spec_reachable(spec)
+    empties = sorted(c for c in cands if c[0] in used and not spec["objs"][c[0]][c[1]])
+    fill_empty = bool(empties) and draw(st.floats(0, 1)) < 0.3
+    if fill_empty:
+        # an empty list of an object of the system gets its first element(s)
+        n, a, classes = draw(st.sampled_from(empties))
     cur = spec["objs"][n][a]
     pool = sorted(S.names_of(spec, classes))
     if a == "jobs":
         pool = [j for j in pool]
     min_len = 1 if a == "devices" else 0
+    if fill_empty and pool:
+        m = draw(st.sampled_from(["append", "iadd", "extend", "insert", "assign"]))
+        x = draw(st.sampled_from(pool))
+        if m == "assign" or not mutators:
+            ed = dict(op="list", obj=n, attr=a, targets=[x])
+        else:
+            ed = dict(op="listop", obj=n, attr=a, method=m,
+                      args={"append": [x], "iadd": [[x]], "extend": [[x]], "insert": [0, x]}[m])
+        if _keeps_profile(spec, E.apply_spec(spec, ed)):
+            return ed
     if not mutators or draw(st.floats(0, 1)) < 0.2:
         tg = draw(st.lists(st.sampled_from(pool), min_size=max(min_len, 0), max_size=3))
         if a == "devices" and not tg:
